@@ -10,7 +10,7 @@ import (
 
 // ---------- scale A (B=4 build): small alphabet, deep ----------
 
-var keysA = []string{"a", "b", "b0", "c", "d", "e", "e0", "f", "g", "h", "i", "j", "k", "l", "m", "n", "o", "p", "q", "r", "s", "t", "u", "v"}
+var keysA = []string{"a", "b", "b0", "c", "d", "e", "e0", "f", "g", "h", "i", "j", "j0", "k", "k0", "l", "m", "n", "o", "p", "q", "r", "s", "t", "u", "v", "w", "x"}
 
 func UniverseA() *Universe { return NewUniverse(keysA, 3 /* "c" is empty-valued on even versions */) }
 
@@ -87,7 +87,9 @@ var prefillsA = []prefillA{
 	{"two-level-min-occupancy", []string{"+b", "+d", "+f", "+h", "+j", "+c", "+e", "-c", "S"}, []string{"a", "b", "d", "e", "g", "j"}},
 	{"append-chain", []string{"+a", "+b", "+c", "+d", "+e", "+f", "+g", "+h", "+i", "+j", "+k", "+l", "+m", "+n", "S"}, []string{"c", "d", "g", "m", "n", "o"}},
 	{"three-level-min-occupancy", []string{"+a", "+b", "+c", "+d", "+e", "+f", "+g", "+h", "+i", "+j", "+k", "+l", "+m", "+n", "+o", "+p", "+q", "+r", "+s", "+t",
-		"-c", "-f", "-i", "-l", "-o", "-r", "S"}, []string{"a", "b", "e", "h", "k", "n", "t", "u"}},
+		"-c", "-f", "-i", "-l", "-o", "-r", "S"}, []string{"a", "b", "e", "k", "t", "u"}},
+	{"inner-node-full", []string{"+a", "+b", "+c", "+d", "+e", "+f", "+g", "+h", "+i", "+j", "+k", "+l", "+m", "+n", "+o", "+p", "+q", "+r", "+s", "+t", "+u", "+v", "+j0", "S"},
+		[]string{"a", "k0", "w"}},
 	{"two-versions", []string{"+b", "+d", "+f", "+h", "+j", "S", "+c", "-h", "S"}, []string{"b", "c", "e", "j"}},
 	{"three-versions-deep", []string{"+a", "+b", "+c", "+d", "+e", "+f", "+g", "+h", "+i", "+j", "S", "-b", "-e", "+k", "S", "+e0", "-j", "S"}, []string{"a", "d", "e0", "k"}},
 }
@@ -104,18 +106,18 @@ func ScenariosA(thorough bool) []*Scenario {
 		if thorough {
 			ds, dv = 5, 6
 		}
-		cache := []int{10000, 0}[pi%2]
+		cache := []int{10000, 0, 2, 10000}[pi%4]
 		out = append(out, &Scenario{
 			Name: "A/struct/" + p.name, U: u, Cfg: Cfg{Cache: cache}, Prefill: u.Ops(p.script...), Snapshot: false,
-			Keys: keys, Reload: true, MaxSaves: 2, Depth: ds, Bounds: boundsOf(keys, u),
+			Keys: keys, Reload: true, MaxSaves: 2, Depth: ds, Bounds: boundsOf(keys, u), Probe: &Probe{Keys: boundsOf(keys, u)[1:]},
 		})
 		vk := keys
 		if len(vk) > 3 {
 			vk = []int{keys[0], keys[len(keys)/2], keys[len(keys)-1]}
 		}
 		out = append(out, &Scenario{
-			Name: "A/versions/" + p.name, U: u, Cfg: Cfg{Cache: 10000 - cache}, Prefill: u.Ops(p.script...), Snapshot: pi%2 == 1,
-			Keys: vk, Rollback: true, Reload: true, LoadVer: true, Prune: true, Imm: true, MaxSaves: 3, Depth: dv, Bounds: boundsOf(vk, u),
+			Name: "A/versions/" + p.name, U: u, Cfg: Cfg{Cache: []int{2, 10000, 10000, 0}[pi%4]}, Prefill: u.Ops(p.script...), Snapshot: pi%2 == 1,
+			Keys: vk, Rollback: true, Reload: true, LoadVer: true, Prune: true, Imm: true, MaxSaves: 3, Depth: dv, Bounds: boundsOf(vk, u), Probe: &Probe{Keys: boundsOf(vk, u)[1:]},
 		})
 	}
 	return out
@@ -137,6 +139,9 @@ func ScenariosB(thorough bool) ([]*Scenario, error) {
 	var out []*Scenario
 	for _, n := range sizes {
 		for oi, order := range []string{"asc", "desc", "mix"} {
+			if !thorough && ((n == 512 || n == 1056) && order == "mix" || n == 1024 && order != "mix") {
+				continue // quick: two insertion orders for 512/1056, one for 1024
+			}
 			var ks []string
 			for i := 0; i <= 2*n+2; i++ {
 				ks = append(ks, keyB(i))
